@@ -17,13 +17,18 @@ DialectCfg(d) == CASE d = "PVL" -> StrictCfg [] d \in {"ODL", "PDS3"} -> OdlCfg 
 
 RECURSIVE PyWsEnd(_, _)
 PyWsEnd(t, i) == IF i <= Len(t) /\ t[i] \in PyWS THEN PyWsEnd(t, i + 1) ELSE i
-(* delete every "-" + (LF | CR | FF) + white space; x[j] = line feeds deleted just before kept character j *)
-RECURSIVE Prepass(_, _, _)
-Prepass(t, i, pend) ==
-   IF i > Len(t) THEN [t |-> <<>>, x |-> <<>>]
-   ELSE IF t[i] = 45 /\ i < Len(t) /\ t[i + 1] \in {10, 13, 12}
-        THEN LET e == PyWsEnd(t, i + 2) IN Prepass(t, e, pend + LFsIn(t, i, e))
-        ELSE LET r == Prepass(t, i + 1, 0) IN [t |-> <<t[i]>> \o r.t, x |-> <<pend>> \o r.x]
+(* delete every "-" + (LF | CR | FF) + white space; x[j] = line feeds deleted just before kept character j.
+   Formulated over index sets so that it stays linear on long labels. *)
+DashStarts(t) == { i \in 1..(Len(t) - 1) : t[i] = 45 /\ t[i + 1] \in {10, 13, 12} }
+Prepass(t, i0, pend0) ==
+   LET starts == DashStarts(t) IN
+   IF starts = {} THEN [t |-> t, x |-> <<>>]
+   ELSE LET segEnd == [s \in starts |-> PyWsEnd(t, s + 2)]                         \* deleted: s .. segEnd[s]-1
+            Deleted(i) == \E s \in starts : s <= i /\ i < segEnd[s]
+            keep == SelectSeq([i \in 1..Len(t) |-> i], LAMBDA i : ~Deleted(i))
+            lfBefore(j) == LET lo == IF j = 1 THEN 1 ELSE keep[j - 1] + 1 IN
+                           IF lo > keep[j] - 1 THEN 0 ELSE LFsIn(t, lo, keep[j])
+        IN [t |-> [j \in 1..Len(keep) |-> t[keep[j]]], x |-> [j \in 1..Len(keep) |-> lfBefore(j)]]
 
 RECURSIVE SumX(_, _, _)
 SumX(x, b, e) == IF x = <<>> \/ b >= e THEN 0 ELSE x[b] + SumX(x, b + 1, e)
